@@ -436,16 +436,12 @@ func (runInfo *runInfoStruct) invokeItemExpr(expr *ast.ItemExpr) {
 	if runInfo.err != nil {
 		return
 	}
-	item := runInfo.rv
+	item := containerOperand(runInfo.rv)
 
 	runInfo.expr = expr.Index
 	runInfo.invokeExpr()
 	if runInfo.err != nil {
 		return
-	}
-
-	if item.Kind() == reflect.Interface && !item.IsNil() {
-		item = item.Elem()
 	}
 
 	switch item.Kind() {
@@ -483,11 +479,7 @@ func (runInfo *runInfoStruct) invokeSliceExpr(expr *ast.SliceExpr) {
 	if runInfo.err != nil {
 		return
 	}
-	item := runInfo.rv
-
-	if item.Kind() == reflect.Interface && !item.IsNil() {
-		item = item.Elem()
-	}
+	item := containerOperand(runInfo.rv)
 	if item.Kind() == reflect.Array && !item.CanAddr() {
 		// reflect cannot slice an array value that is not addressable (a Go array bound by value): slice a copy
 		c := reflect.New(item.Type()).Elem()
